@@ -30,3 +30,14 @@ int c1rec2 () { return crec (); }
 int bufsz (int n) { return sizeof (allocate_buffer (n)); }
 // c01's observation: sort_array by function name hashes the name once per comparison and executes no instruction
 int sortname (int n, int len) { mixed *a = allocate (n); string f = repeat_string ("f", len); int t = time_expression { sort_array (a, f, this_object ()); }; return t; }
+// round 4 probes: values nested deeper than any C recursion limit
+int deepfp (int n) { function f = (: spin :); int i; for (i = 0; i < n; i++) f = (: call_other, this_object (), "kind", f :); return strlen (sprintf ("%O", f)); }
+int deeparr (int n) { mixed a = ({ }); int i; for (i = 0; i < n; i++) a = ({ a }); a = 0; return n; }
+int deeparr_eq (int n) { mixed a = ({ }), b = ({ }); int i; for (i = 0; i < n; i++) { a = ({ a }); b = ({ b }); } return a == b; }
+int rpl1 (int n, int r) { mixed x = replace_string (repeat_string ("a", n), "a", repeat_string ("x", r)); return stringp (x) ? strlen (x) : -1; }
+int rpl0 (int n, int r) { mixed x = replace_string (repeat_string ("ab", n), "ab", repeat_string ("x", r)); return stringp (x) ? strlen (x) : -1; }
+int rplmax (int n, int r, int first, int last) { mixed x = replace_string (repeat_string ("ab", n), "ab", repeat_string ("x", r), first, last); return stringp (x) ? strlen (x) : -1; }
+int deepfp_nofmt (int n) { function f = (: spin :); int i; for (i = 0; i < n; i++) f = (: call_other, this_object (), "kind", f :); f = 0; return n; }
+function gfp;
+int deepfp_keep (int n) { function f = (: spin :); int i; for (i = 0; i < n; i++) f = (: call_other, this_object (), "kind", f :); gfp = f; return n; }
+int fmt_kept () { return strlen (sprintf ("%O", gfp)); }
